@@ -12,6 +12,8 @@ import (
 func init() {
 	f := "internal/token/serialize.go"
 	register(&Property{ID: "C23", Run: runC23, Mutants: []Mutant{
+		{Name: "content update validates the new line table against the old size", File: "internal/token/position.go", Old: "\t// set lines table\n\tf.mutex.Lock()\n\tf.size = len(content)\n\tf.lines = lines\n\tf.mutex.Unlock()\n}", New: "\tf.SetLines(lines)\n\n\tf.mutex.Lock()\n\tf.size = len(content)\n\tf.mutex.Unlock()\n}", Expect: "content-update-installs-table"},
+		{Name: "serialized files sorted by name", File: "internal/token/serialize.go", Old: "\treturn encode(ss)\n}", New: "\tsort.SliceStable(ss.Files, func(i, j int) bool {\n\t\treturn ss.Files[i].Name < ss.Files[j].Name\n\t})\n\n\treturn encode(ss)\n}", Old2: "\t\"fmt\"\n)", New2: "\t\"fmt\"\n\t\"sort\"\n)", Expect: "file-order-by-base"},
 		{Name: "the next file's base ignores this file's spare capacity", File: "internal/token/position.go", Old: "\tbase += cap + 1 // +1 because EOF also has a position", New: "\tbase += size + 1 // +1 because EOF also has a position", Expect: "fileset-range-reserved"},
 		{Name: "Read keeps the lookup cache of the old file list", File: "internal/token/serialize.go", Old: "\ts.files = files\n\ts.last = nil\n", New: "\ts.files = files\n", Expect: "fileset-cache-invalidation"},
 		{Name: "two serialized fields share a JSON name", File: "internal/token/position.go", Old: "\tLine, Column int", New: "\tLine   int `json:\"line\"`\n\tColumn int `json:\"line\"`", Expect: "serialized-name-unique :: token.lineInfo"},
@@ -39,6 +41,7 @@ func runC23(c *Ctx) {
 	}
 	c23Extra(c, p, tk)
 	c23FileSet(c, p, tk)
+	c23Round4(c, p, tk)
 	if sp := p.MustPkg("panic-position-per-site", "internal/ssa"); sp != nil {
 		c23PanicSites(c, p, sp)
 	}
@@ -62,34 +65,90 @@ func runC23(c *Ctx) {
 		return
 	}
 	info := tk.TypesInfo
-	// Write: serializedFile{X: ...f.x...}
-	writeMap := map[string]string{} // serialized field -> source expr
-	ast.Inspect(wr.Body, func(n ast.Node) bool {
-		cl, ok := n.(*ast.CompositeLit)
-		if !ok || namedTypeName(info.TypeOf(cl)) != "serializedFile" {
-			return true
-		}
-		for _, el := range cl.Elts {
-			if kv, ok := el.(*ast.KeyValueExpr); ok {
-				writeMap[types.ExprString(kv.Key)] = types.ExprString(kv.Value)
+	// The two conversions may be written in Write / Read themselves or in helpers of the package they call
+	// (`f.serialized()`, `sf.toFile(s)`): composite literals are collected from the function and from the package
+	// functions it calls (two levels). Which field feeds which is read from the field selections in the value
+	// expression (go/types), not from variable names.
+	bodies := func(fd *ast.FuncDecl) []*ast.FuncDecl {
+		decls := map[*types.Func]*ast.FuncDecl{}
+		for _, f := range tk.Syntax {
+			for _, d := range f.Decls {
+				if x, ok := d.(*ast.FuncDecl); ok && x.Body != nil {
+					if fo, ok := info.Defs[x.Name].(*types.Func); ok {
+						decls[fo] = x
+					}
+				}
 			}
 		}
-		return true
-	})
-	// Read: &File{x: f.X}
+		out := []*ast.FuncDecl{fd}
+		seen := map[*ast.FuncDecl]bool{fd: true}
+		for level, frontier := 0, []*ast.FuncDecl{fd}; level < 2; level++ {
+			var next []*ast.FuncDecl
+			for _, g := range frontier {
+				ast.Inspect(g.Body, func(n ast.Node) bool {
+					if call, ok := n.(*ast.CallExpr); ok {
+						if fn := CalleeOf(info, call); fn != nil && decls[fn] != nil && !seen[decls[fn]] {
+							seen[decls[fn]] = true
+							out = append(out, decls[fn])
+							next = append(next, decls[fn])
+						}
+					}
+					return true
+				})
+			}
+			frontier = next
+		}
+		return out
+	}
+	// fieldsOf lists the fields of struct `owner` selected anywhere in e
+	fieldsOf := func(e ast.Expr, owner string) []string {
+		var out []string
+		ast.Inspect(e, func(n ast.Node) bool {
+			if se, ok := n.(*ast.SelectorExpr); ok {
+				if sel, ok := info.Selections[se]; ok && sel.Kind() == types.FieldVal && namedTypeName(sel.Recv()) == owner {
+					out = append(out, se.Sel.Name)
+				}
+			}
+			return true
+		})
+		return out
+	}
+	// Write: serializedFile{X: ...f.x...}   serialized field -> File fields it is computed from
+	writeMap := map[string][]string{}
+	for _, fd := range bodies(wr) {
+		ast.Inspect(fd.Body, func(n ast.Node) bool {
+			cl, ok := n.(*ast.CompositeLit)
+			if !ok || namedTypeName(info.TypeOf(cl)) != "serializedFile" {
+				return true
+			}
+			for _, el := range cl.Elts {
+				if kv, ok := el.(*ast.KeyValueExpr); ok {
+					writeMap[types.ExprString(kv.Key)] = fieldsOf(kv.Value, "File")
+				}
+			}
+			return true
+		})
+	}
+	// Read: &File{x: f.X}   File field -> serialized field it is restored from (the value must be that field itself)
 	readMap := map[string]string{}
-	ast.Inspect(rd.Body, func(n ast.Node) bool {
-		cl, ok := n.(*ast.CompositeLit)
-		if !ok || namedTypeName(info.TypeOf(cl)) != "File" {
-			return true
-		}
-		for _, el := range cl.Elts {
-			if kv, ok := el.(*ast.KeyValueExpr); ok {
-				readMap[types.ExprString(kv.Key)] = types.ExprString(kv.Value)
+	for _, fd := range bodies(rd) {
+		ast.Inspect(fd.Body, func(n ast.Node) bool {
+			cl, ok := n.(*ast.CompositeLit)
+			if !ok || namedTypeName(info.TypeOf(cl)) != "File" {
+				return true
 			}
-		}
-		return true
-	})
+			for _, el := range cl.Elts {
+				if kv, ok := el.(*ast.KeyValueExpr); ok {
+					if se, ok := ast.Unparen(kv.Value).(*ast.SelectorExpr); ok {
+						if fs := fieldsOf(se, "serializedFile"); len(fs) == 1 {
+							readMap[types.ExprString(kv.Key)] = fs[0]
+						}
+					}
+				}
+			}
+			return true
+		})
+	}
 	assigns := func(fd *ast.FuncDecl) map[string]string {
 		m := map[string]string{}
 		ast.Inspect(fd.Body, func(n ast.Node) bool {
@@ -113,12 +172,14 @@ func runC23(c *Ctx) {
 			// which serialized field carries it?
 			ser := ""
 			for sf, src := range writeMap {
-				if strings.Contains(src, "f."+field) {
-					ser = sf
+				for _, x := range src {
+					if x == field {
+						ser = sf
+					}
 				}
 			}
 			back := readMap[field]
-			good := ser != "" && back == "f."+ser && exported("serializedFile", ser)
+			good := ser != "" && back == ser && exported("serializedFile", ser)
 			detail := fmt.Sprintf("Write: %s <- f.%s; Read: %s <- %s", ser, field, field, back)
 			bad := fmt.Sprintf("position-relevant field File.%s does not survive serialization: Write stores it in %q (exported: %v), Read restores %s from %q", field, ser, exported("serializedFile", ser), field, back)
 			c.Check(good, r1, k, loc, detail, bad)
